@@ -75,13 +75,13 @@ claim('C20',
 
 claim('C13',
       "Panic-freedom is the implicit obligation set Verus generates for every extracted function (arithmetic overflow/underflow, index and slice bounds, char boundaries of str slices, unwrap/expect on None/Err, unreachable panics, callee preconditions), checked for ALL arguments under the type invariants canonical(path) and layers.len() >= 1. "
-      "Discharged for every function under contract in U01-U14: all MemoryFS methods and both handle types, PathLike, every VfsPath method except copy_dir/move_dir, WalkDirIterator::next, AltrootFS, OverlayFS (incl. read_dir's byte-length slicing of the '_wo' suffix), PhysicalFS::get_path/create_dir, EmbeddedFS::normalize_path/exists/refusals, error conversions, trait defaults. "
-      "Seven panics found this way were genuine and are repaired by fix: commits (reader len/seek, EmbeddedFS::open_file on the root, PhysicalFS read_dir/create_dir unwraps).",
-      "Not covered (listed in evidence): functions out of Verus's reach - PhysicalFS methods other than get_path/create_dir (std::fs calls), EmbeddedFS::new/read_dir/metadata/open_file (rust-embed), copy_dir/move_dir, VfsPath::new, the async port; lock poisoning (unwrap on RwLock) is excluded by rule R4; termination of remove_dir_all is not proved. Bounded stand-ins (oracle crate) cover part of the rest in the thorough tier.",
+      "Discharged for every function under contract in U01-U14 and in the async units U21-U30 (async path type, AsyncMemoryFS and its read handle, AsyncAltrootFS, AsyncOverlayFS, the poll_next state machine - read through rule R30): all MemoryFS methods and both handle types, PathLike, every VfsPath method except copy_dir/move_dir, WalkDirIterator::next, AltrootFS, OverlayFS (incl. read_dir's byte-length slicing of the '_wo' suffix), PhysicalFS::get_path/create_dir, EmbeddedFS::normalize_path/exists/refusals, error conversions, trait defaults. "
+      "Seven panics found this way were genuine and are repaired by fix: commits (reader len/seek, EmbeddedFS::open_file on the root, PhysicalFS read_dir/create_dir unwraps; the same unwraps in AsyncPhysicalFS).",
+      "Not covered (listed in evidence): functions out of Verus's reach - PhysicalFS methods other than get_path/create_dir (std::fs calls), EmbeddedFS::new/read_dir/metadata/open_file (rust-embed), copy_dir/move_dir, VfsPath::new, of the async port AsyncPhysicalFS and the write handle's poll delegations; lock poisoning (unwrap on RwLock) is excluded by rule R4; termination of remove_dir_all is not proved. Bounded stand-ins (oracle crate) cover part of the rest in the thorough tier.",
       "DESIGN.md section 5, C13")
 claim('C18',
       "Proved for the parts inside the crate that Verus can reach: the five mutators (create_dir, create_file, append_file, remove_file, remove_dir) return NotSupported for every path (and, taking &self on a struct without interior mutability, change nothing); exists is total and reports the root as existing; normalize_path strips exactly the leading '/' without panicking on any canonical path (after the fix commit open_file uses it too).",
-      "EmbeddedFS::new / read_dir / metadata / open_file call into rust-embed (T::get, T::iter), which cannot be linked in single-file Verus mode: they are assumed; equality with a PhysicalFS on the same folder is outside (OS). This is a partial claim by construction.",
+      "EmbeddedFS::new / read_dir / metadata / open_file call into rust-embed (T::get, T::iter), which cannot be linked in single-file Verus mode: they are assumed; equality with a PhysicalFS on the same folder is outside the contracts (OS) and is covered by the bounded oracle `embedded` only (EmbeddedFS against PhysicalFS on the fixture folder replay/embed, 65 paths). This is a partial claim by construction.",
       "DESIGN.md section 5, C18")
 
 for _pid, _why in {
